@@ -9,6 +9,10 @@ def add_obligations(pack, tier):
     run_contracts(pack, [(P.nr_step('C01'), None, P.replay_nr_step), (P.nr_solve('C01'),), (P.run('C01'), None, P.replay_run)])
     from contracts import C01_assembly
     C01_assembly.add_obligations(pack, tier)
+    from contracts import fn_sequence as Q
+    run_contracts(pack, [(Q.pflow_fg_update('C01'),), (Q.call_models('C01'),)] +
+                  [(Q.delegation('C01', n, m),) for n, m in (('l_update_var', 'l_update_var'), ('l_update_eq', 'l_check_eq'),
+                                                             ('s_update_var', 's_update_var'), ('f_update', 'f_update'), ('g_update', 'g_update'))])
     # input data -> system base: the admittances of the balance equations are the per-unit values of the physical input data
     from contracts import fn_pu
     pack.assume('per-unit conversion of the input data (System.calc_pu_coeff, NumParam.set_pu_coeff) is part of C01 with the '
